@@ -212,6 +212,57 @@ Proof.
 Qed.
 Print Assumptions C06_eapolkey_roundtrip.
 
+(* every layer that decoding produces is in the C06 domain with its own payload: so decode, serialize, decode is the
+   identity on decodable input *)
+Theorem C06_eapolkey_decoded_wf : forall old data l tr, bytes_ok data -> ek_decode_into old data = (l, Ok tt, tr) ->
+  ek_wf l (ek_payload l).
+Proof.
+  intros old data l tr Hb. unfold ek_decode_into, ek_decode_gen. cbv zeta. destruct (zlen data <? 95) eqn:Hn; [discriminate|].
+  assert (B : forall k, 0 <= nth k data 0 < 256) by (intros k; apply bytes_ok_nth; exact Hb).
+  unfold sl_rd64. rewrite cd_idx_ok by lia. rewrite !cd_rd16_ok by lia. rewrite !ml_rd32_ok by lia. cbn [obind].
+  rewrite (cd_slc_ok data 13 45), (cd_slc_ok data 45 61), (cd_slc_ok data 77 93) by lia. cbn [ml_bind].
+  set (info := nth (Z.to_nat 1) data 0 * 256 + nth (Z.to_nat (1 + 1)) data 0).
+  set (kdl := nth (Z.to_nat 93) data 0 * 256 + nth (Z.to_nat (93 + 1)) data 0).
+  assert (Ri : 0 <= info < 65536) by (unfold info; pose proof (B (Z.to_nat 1)); pose proof (B (Z.to_nat (1 + 1))); lia).
+  assert (Rk : 0 <= kdl < 65536) by (unfold kdl; pose proof (B (Z.to_nat 93)); pose proof (B (Z.to_nat (93 + 1))); lia).
+  destruct (zlen data <? 95 + kdl) eqn:C1; [discriminate|].
+  assert (L1 : zlen (slice data (Z.to_nat 13) (Z.to_nat 45)) = 32) by (unfold zlen in *; rewrite slice_length by lia; lia).
+  assert (L2 : zlen (slice data (Z.to_nat 45) (Z.to_nat 61)) = 16) by (unfold zlen in *; rewrite slice_length by lia; lia).
+  assert (L3 : zlen (slice data (Z.to_nat 77) (Z.to_nat 93)) = 16) by (unfold zlen in *; rewrite slice_length by lia; lia).
+  assert (R64 : forall i, 0 <= (((nth (Z.to_nat i) data 0 * 256 + nth (Z.to_nat (i + 1)) data 0) * 65536 + (nth (Z.to_nat (i + 2)) data 0 * 256 + nth (Z.to_nat (i + 2 + 1)) data 0)) * 4294967296 +
+            ((nth (Z.to_nat (i + 4)) data 0 * 256 + nth (Z.to_nat (i + 4 + 1)) data 0) * 65536 + (nth (Z.to_nat (i + 4 + 2)) data 0 * 256 + nth (Z.to_nat (i + 4 + 2 + 1)) data 0))) < 18446744073709551616).
+  { intros i. pose proof (B (Z.to_nat i)). pose proof (B (Z.to_nat (i + 1))). pose proof (B (Z.to_nat (i + 2))). pose proof (B (Z.to_nat (i + 2 + 1))).
+    pose proof (B (Z.to_nat (i + 4))). pose proof (B (Z.to_nat (i + 4 + 1))). pose proof (B (Z.to_nat (i + 4 + 2))). pose proof (B (Z.to_nat (i + 4 + 2 + 1))). lia. }
+  pose proof (R64 5) as R5. pose proof (R64 61) as R61. pose proof (R64 69) as R69.
+  assert (Rkl : 0 <= nth (Z.to_nat 3) data 0 * 256 + nth (Z.to_nat (3 + 1)) data 0 < 65536) by (pose proof (B (Z.to_nat 3)); pose proof (B (Z.to_nat (3 + 1))); lia).
+  destruct (ek_bit info 12) eqn:En.
+  - rewrite !cd_slc_ok by lia. cbn [ml_bind]. intros X.
+    match type of X with (?t, _, _) = _ => assert (El : l = t) by congruence end. subst l. clear X.
+    unfold ek_wf. cbn [ek_kdt ek_ver ek_kt ek_ki ek_klen ek_rc ek_rsc ek_id ek_nonce ek_iv ek_mic ek_kdl ek_enc ek_ekd ek_payload].
+    repeat split; try (apply B); try lia; try assumption; try apply R5; try apply R61; try apply R69.
+    unfold zlen in *. rewrite slice_length by lia. lia.
+  - rewrite !cd_slc_ok by lia. cbn [ml_bind]. intros X.
+    match type of X with (?t, _, _) = _ => assert (El : l = t) by congruence end. subst l. clear X.
+    unfold ek_wf. cbn [ek_kdt ek_ver ek_kt ek_ki ek_klen ek_rc ek_rsc ek_id ek_nonce ek_iv ek_mic ek_kdl ek_enc ek_ekd ek_payload].
+    repeat split; try (apply B); try lia; try assumption; try apply R5; try apply R61; try apply R69.
+    unfold zlen in *. rewrite slice_length by lia. lia.
+Qed.
+Print Assumptions C06_eapolkey_decoded_wf.
+
+(* hence the round trip on every decodable input, with any buffer content and into any object *)
+Corollary C06_eapolkey_roundtrip_decoded : forall old data l tr junk old2, bytes_ok data -> ek_decode_into old data = (l, Ok tt, tr) ->
+  exists bytes, fst (ek_serialize l (ek_payload l) true true junk) = Ok bytes /\
+    fst (fst (ek_decode_into old2 bytes)) = mkEk (ek_hdr l ++ ek_ekd l) (ek_payload l) (ek_kdt l) (ek_ver l) (ek_kt l) (ek_ki l) (ek_install l) (ek_ack l) (ek_micf l)
+      (ek_secure l) (ek_micerr l) (ek_req l) (ek_enc l) (ek_smk l) (ek_klen l) (ek_rc l) (ek_nonce l) (ek_iv l) (ek_rsc l) (ek_id l) (ek_mic l) (ek_kdl l) (ek_ekd l).
+Proof.
+  intros old data l tr junk old2 Hb D. pose proof (C06_eapolkey_decoded_wf old data l tr Hb D) as W.
+  destruct (ek_serialize l (ek_payload l) true true junk) as [o l'] eqn:S. rewrite ek_serialize_spec in S.
+  assert (Eo : o = Ok ((ek_hdr l ++ ek_ekd l) ++ ek_payload l)) by congruence. subst o. eexists. split; [reflexivity|].
+  destruct (C06_eapolkey_roundtrip l (ek_payload l) true true junk _ l old2 W (ek_serialize_spec l (ek_payload l) true true junk)) as [_ [_ [c [Dc Ec]]]].
+  rewrite Dc. cbn [fst]. rewrite Ec. reflexivity.
+Qed.
+Print Assumptions C06_eapolkey_roundtrip_decoded.
+
 (* outside the domain: a key data length that disagrees with the encrypted key data is written as it is (SerializeTo does
    not consult FixLengths) and the written frame does not decode *)
 Theorem C06_eapolkey_length_not_fixed_refuted :
